@@ -88,6 +88,9 @@ func bindValues() []any {
 		bNested{In: bTagged{ID: 9}, M: map[string]int{"k": 1}, P: &bUntagged{ID: 4}, Any: 1.5},
 		[]int{1, 2, 3}, []any{1, "a", nil}, []string{"a"}, []byte("hi"), [2]int{1, 2}, []bTagged{{ID: 1}},
 		7, int64(1) << 60, uint8(200), 1.5, math.NaN(), math.Inf(1), "s", "", "123", true, false,
+		// whole floats beyond 2^53 (JSON prints the shortest decimal that round-trips, not the integer), at the int64 edges
+		float64(1<<53 + 2), float64(1<<54 + 8), 1700000000123456768.0, -9223372036854775808.0, 9223372036854775808.0, 1e19, -0.0, 3.0,
+		int64(math.MaxInt64), int64(math.MinInt64), uint64(math.MaxUint64), int64(1<<53 + 1),
 		&one, nilT, nilM, nilS, make(chan int), func() {}, time.Second, myInt(5), myStr("ms"),
 		json.Number("12"), json.RawMessage(`{"id":5}`), struct{}{}, fmt.Errorf("e"),
 		map[string]any{"deep": map[string]any{"deeper": map[string]any{"deepest": []any{map[string]any{"x": 1}}}}},
@@ -248,12 +251,24 @@ func checkBind(v any, ds destSpec, pre bool) []string {
 	st := flyt.NewSharedStore()
 	st.Set("k", map[string]any{"id": 999, "name": "previous"})
 	try(func() { var scratch bTagged; st.Bind("k", &scratch); var scratch2 any; st.Bind("k", &scratch2) })
+	st.Set("k", bUntagged{ID: 998, Name: "previous, a plain struct"})
+	try(func() {
+		var s1, s2, s3 bTagged
+		st.Bind("k", &s1)
+		st.Bind("k", &s2)
+		st.Bind("k", &s3)
+	})
 	st.Set("bad", map[string]any{"id": "not-a-number"})
 	try(func() { var scratch bTagged; st.Bind("bad", &scratch) })
 	st.Set("worse", make(chan int))
 	try(func() { var scratch bTagged; st.Bind("worse", &scratch) })
 	st.Delete("bad")
 	st.Delete("worse")
+	if !pre {
+		// ... and on this route the key itself is deleted and set again (rather than overwritten)
+		st.Delete("k")
+		st.Set("k", v)
+	}
 	st.Merge(map[string]any{"k": v})
 	var errS error
 	if p, pv := try(func() { errS = st.Bind("k", dS) }); p {
